@@ -352,8 +352,23 @@ class Gen:
             if t[0] == "arr":
                 if r.random() < 0.6:
                     txt += "[%dusize]" % r.randint(0, t[2] - 1 + (1 if r.random() < 0.08 else 0))
-                else:
+                elif r.random() < 0.8:
                     txt += "[%s]" % self.expr("usize", env, d - 1)
+                else:
+                    # an index expression with an effect on a mutable variable (possibly the target itself): the
+                    # effect must survive the assignment
+                    smuts = [(mn, mt) for (mn, mt, mm) in env if mm and (mt == "bool" or is_int(mt))]
+                    amuts = [(mn, mt) for (mn, mt, mm) in env if mm and isinstance(mt, tuple) and mt[0] == "arr"
+                             and (mt[1] == "bool" or is_int(mt[1]))]
+                    if amuts and r.random() < 0.5:
+                        mn, mt = r.choice(amuts)
+                        eff = "%s[%dusize] = %s;" % (mn, r.randint(0, mt[2] - 1), self.expr(mt[1], env, 1))
+                    elif smuts:
+                        mn, mt = r.choice(smuts)
+                        eff = "%s = %s;" % (mn, self.expr(mt, env, 1))
+                    else:
+                        eff = ""
+                    txt += "[{ %s %dusize }]" % (eff, r.randint(0, t[2] - 1))
                 t = t[1]
             elif t[0] == "tup":
                 i = r.randrange(len(t[1]))
